@@ -3,14 +3,16 @@ PROPS = {
                 technique="runtime monitor: recording io.WriterAt / io.Writer + offline tiling checker against a simulated file, scripted retryable faults, race detector",
                 text="Downloads of simulated files through the public Builder API (Stream and Parallel, 1..8 threads, part sizes 4K..1M, sizes around multiples of the part size incl. 0) "
                      "against a harness master DC with scripted FLOOD_WAIT_0 / timeouts on any request (also those at EOF) and shuffled completion order: every write is checked against the file, "
-                     "the recorded ranges must tile [0,size) exactly, the returned type must be the served one, nothing may be written after return.",
-                note="Sampled sizes/schedules/fault scripts; flood waits use the real clock (1 s each) and are therefore few; the harness server is honest (precise getFile semantics).",
+                     "the recorded ranges must tile [0,size) exactly, the returned type must be the served one, nothing may be written after return, the served bytes must not be modified.",
+                note="Sampled sizes/schedules/fault scripts (quick 600, thorough 40000 downloads); flood waits use the real clock (1 s each, downloader passes no clock to tgerr.FloodWait) and are therefore few; "
+                     "the harness server is honest (precise getFile semantics). Harness-owned source bytes live outside the Go heap (not race-instrumented); everything gotd allocates is.",
                 watchdog={"quick": 600, "thorough": 3600}),
     "C34": dict(engine="downmon", race=True, level="exploration", design="C34",
                 technique="runtime monitor: adversarial CDN / master fakes with reference AES-CTR, content oracle on every completed download, request-plan checker (exhaustive grid through hook H8 + on observed requests)",
                 text="Completed downloads in inline-CDN, WithVerify+CDN and WithVerify+master modes must equal the genuine file under 16 corruption strategies aimed at every chunk index, with honest control runs "
-                     "(token refresh, new keys, fallback, reupload, fingerprint errors, timeouts, late redirect); every CDN request is checked for 4 KiB alignment, divisor-of-1MiB limit and no 1 MiB crossing; "
-                     "buildCDNRequestPlan is enumerated over the full 600x300 grid.",
-                note="Hashes from the master DC are trusted; CDN encryption reference transcribed from core.telegram.org/cdn; adversary strategies and file/window layouts are sampled; only the plan grid is exhaustive.",
+                     "(token refresh, new keys, fallback, reupload, fingerprint errors, timeouts, late redirect) that must not be rejected with a hash mismatch; every CDN request is checked for 4 KiB alignment, "
+                     "divisor-of-1MiB limit and no 1 MiB crossing, exact in-order tiling on runs with a determined request sequence; buildCDNRequestPlan is enumerated over the full 600x300 grid.",
+                note="Hashes from the master DC are trusted; CDN encryption reference transcribed from core.telegram.org/cdn; adversary strategies and file/window layouts are sampled "
+                     "(quick 640, thorough 20000 downloads); only the plan grid is exhaustive. Needs hook H8 (telegram/downloader/export_verif.go).",
                 watchdog={"quick": 600, "thorough": 3600}),
 }
